@@ -312,6 +312,54 @@ def eval_table(chk, F, rule, cfg):
     return fn, paths, rows
 
 
+def lazy_rendering(chk, F, rule, cfg):
+    """On every path of the evaluator that ends in Ok (a call that is answered, unmocked or delegated), the caller's arguments
+    are seen only by the matcher: their Debug rendering (MockFn::debug_inputs, directly or through the stored input debugger)
+    happens on error paths only. Rendering runs user code (Debug impls), so doing it on answered calls changes what a call does."""
+    from facts import callee_def
+    direct = set()
+    for d, fn in F.fns.items():
+        for _, t in fn.calls(include_cleanup=True):
+            c = t.get('callee', {})
+            st = c.get('self_ty') or ''
+            if (c.get('name') == 'debug_inputs' and (c.get('trait') or '').endswith('MockFn')) or \
+               (c.get('name') in ('call', 'call_mut', 'call_once') and st.startswith('dyn') and 'Option<std::string::String>' in st.replace('core::option::', '').replace('alloc::string::', 'std::string::')):
+                direct.add(d)
+    chk.floor(rule, 'functions that render the inputs', len(direct), 1, config=cfg)
+    # callers (by direct local call, not by merely creating a closure) of renderers render too
+    rend = set(direct)
+    changed = True
+    while changed:
+        changed = False
+        for d, fn in F.fns.items():
+            if d in rend:
+                continue
+            for _, t in fn.calls(include_cleanup=True):
+                if callee_def(t) in rend:
+                    rend.add(d)
+                    changed = True
+                    break
+    entries = [F.fn('eval::eval'), F.fn('eval::DynCtx::eval_dyn'), F.fn('eval::DynCtx::match_call_pattern')]
+    names = set(F.fns[d].defp for d in rend) - set(e.defp for e in entries)
+    nok = 0
+    for fn in entries:
+        for p in symex.Interp(F).run(fn):
+            lab = ret_label(p)
+            if not lab.startswith('Ok:'):
+                continue
+            nok += 1
+            bad = []
+            for e in p.calls():
+                t = e.term
+                cd = callee_def(t) if t else None
+                c = (t or {}).get('callee', {})
+                if cd in names or (c.get('name') == 'debug_inputs' and (c.get('trait') or '').endswith('MockFn')) or is_call(('call', e.data[1], (), 0), r'ProperDebug>?::unimock_try_debug$|fmt::Debug>?::fmt$'):
+                    bad.append(e.data[1])
+            chk.ob(rule, 'a call that ends in %s never renders the caller\'s arguments (Debug runs on error paths only)' % lab, not bad, config=cfg, fn=fn, site='lazy:%s' % lab,
+                   what='renders inputs on an Ok path: %s' % sorted(set(bad)), found=sorted(set(bad)), expected='no call into %s on Ok paths' % sorted(names)[:6])
+    chk.floor(rule, 'Ok paths of the evaluator', nok, 8, config=cfg)
+
+
 # ------------------------------------------------------------------------------------------
 # selector: match_call_pattern (R01.1 R01.2 R04.2 R04.3 R04.5)
 # ------------------------------------------------------------------------------------------
